@@ -45,8 +45,9 @@ PROPS = {
         harness=[with_monitor(storediff('storediff-promises', PROMISE_KINDS + ['DeleteCallbacks', 'CompleteTasks', 'CreateTasks'], (30, 30), (800, 40), (300, 40)), 'C01'),
                  sysdiff('sysdiff-promises', API_PROMISE, (25, 120), (600, 150), 'C01', ['-routed', '40', '-fail', '15', '-crash', '2'], (200, 150)),
                  sysdiff('sysdiff-promises-focus', ['ReadPromise', 'CreatePromise', 'CompletePromise', 'SearchPromises', 'CreateCallback'], (15, 60), (500, 80), 'C01',
-                         ['-focus', '-fail', '5'], (300, 80))],
-        rule=SYS_RULE + '; plus storediff over the promise command kinds; the C01 monitor (PromMono over consecutive implementation dumps) runs on every committed batch',
+                         ['-focus', '-fail', '5'], (300, 80)),
+                 dict(bin='txedge', name='txedge', quick=['-steps', '8'], thorough=['-steps', '60', '-callbacks', '150000'], search=['-steps', '24'])],
+        rule='txedge: a batch acknowledged to its submitters is in the database also when the transaction deadline passes during it (a completion reported written but not stored can be completed again differently); ' + SYS_RULE + '; plus storediff over the promise command kinds; the C01 monitor (PromMono over consecutive implementation dumps) runs on every committed batch',
         assumptions=['completion requests carry a state in {resolved, rejected, canceled} (front-end validation)',
                      'byte strings are valid UTF-8 in generated inputs'],
         trusted_base=['coroutine control flow and kernel tick are modelled by hand (Model/Coroutines, Model/System) and tied by sysdiff'],
